@@ -740,6 +740,10 @@ func (k *Kernel) StepOnce() bool {
 	}
 	k.step++
 	k.Stats.Steps++
+	if k.step%500 == 0 {
+		// heartbeat for the orchestrator's stall watchdog: the run is slow, not stuck
+		os.Stdout.WriteString("BEAT\n")
+	}
 	if k.step > k.P.MaxSteps {
 		k.Abort("step budget exhausted")
 	}
